@@ -355,7 +355,8 @@ Section NoPanic.
     destruct (Nat.ltb 2 (length args)); [reflexivity|].
     set (fmt := match args with a :: _ => date_format_of a | [] => LIT "%+" end).
     destruct (strftime_ok fmt) eqn:E; cbn [negb]; [|reflexivity].
-    destruct (nth_error args 1) as [[|[z| |] r]|]; try reflexivity; cbn; try exact E.
+    destruct (nth_error args 1) as [arg|]; [|cbn; exact E].
+    destruct (literal_arg _ arg) as [z|]; [|reflexivity].
     destruct (str_eqb z _); [exact E|]. destruct (str_eqb z _); [exact E|reflexivity].
   Qed.
 
@@ -364,9 +365,9 @@ Section NoPanic.
     intros args prm. unfold compile_mdc.
     destruct (Nat.ltb 2 (length args)); [reflexivity|].
     destruct args as [|a r]; [reflexivity|].
-    destruct (mdc_arg _ a); [|reflexivity].
+    destruct (literal_arg _ a); [|reflexivity].
     destruct (nth_error (a :: r) 1) as [b|]; [|reflexivity].
-    destruct (mdc_arg _ b); reflexivity.
+    destruct (literal_arg _ b); reflexivity.
   Qed.
 
   Lemma group_chunk_safe : forall g args prm,
